@@ -24,6 +24,8 @@ def runs(p):
     ctx = p['ctx']
     if ctx == 'root':
         q['desc'] = [g]
+    elif ctx == 'after':        # a completion-triggered consumer after group_by on the same key: groups must be flushed before the key's completion is forwarded
+        q['desc'] = [g, ['to_list_sum']]
     elif ctx == 'in_group':
         q['desc'] = [['group', 'mod3', [['group', 'mod2', INNER[p['inner']]]]]]
     elif ctx == 'in_roll':
@@ -55,7 +57,7 @@ def obligations(tier, seed):
                               bound=dict(items=n, values='any int', key_mapper=km)))
     for inner in ('scan', 'count_last'):
         obs.append(Ob(PROP, 'runs', dict(ctx='root', km='tup2', inner=inner, n=4 if q else 5), budget=120 if q else 900, bound=dict(items=4 if q else 5)))
-    for ctx in ('in_group', 'in_roll', 'in_roll31', 'in_split'):
+    for ctx in ('in_group', 'in_roll', 'in_roll31', 'in_split', 'after'):
         for n in ((3, 4) if q else (3, 4, 5)):
             if q and ctx in ('in_group', 'in_split') and n == 4:
                 continue
